@@ -262,6 +262,10 @@ def correspondence(ctx):
         for name in ('assert_output', 'assert_not_output', 'assert_output_contains', 'assert_not_output_contains', 'assert_output_regex',
                      'assert_not_output_regex'):
             a, b = fired(name + ':inline'), fired(name + ':stale')
+            c = fired(name + ':inblock') if (name + ':inblock') in v else a
+            if c is not None and a is not None and c != a:
+                problems.append(('output-of-another-execution', '%s on the result of %s(%r): fired=%s on its own, fired=%s inside a command block in which '
+                                 'other calls printed before it' % (name, sp['fn'], sp['arg'], a, c)))
             if 'raised' in v[name + ':inline'] or 'raised' in v[name + ':stale']:
                 if not (name.endswith('regex') and sp['text'] == ''):
                     try:
